@@ -37,8 +37,19 @@ def run_check(pid, tier, seed, replay=None):
         print(s); sys.stdout.flush()
     violations = []       # (kind, description, replay payload)
     known_lines = []
-    # ---- 1. proofs
+    # ---- 0. fragments regenerated from /repo's current source (constants, guard tables)
+    import translate
+    regen_err = None
+    try:
+        translate.regenerate()
+        if hasattr(mod, "prepare"):
+            mod.prepare(tier)
+    except translate.TieBroken as e:
+        regen_err = str(e)
+    # ---- 1. proofs (re-checked against the regenerated fragments)
     pr = proof_step(pid)
+    if regen_err:
+        pr["errors"].append("source translator: " + regen_err)
     proof_broken = bool(pr["errors"]) or pr["discharged"] != pr["obligations"]
     # ---- 2. executor from the current working tree
     exe, bout = build_harness()
@@ -136,6 +147,17 @@ def run_check(pid, tier, seed, replay=None):
         oracle_checked += 1
         if r:
             violations.append(("oracle", r, c))
+    # ---- 6b. property-specific extra procedures (interval certificates, CPU-affinity sweeps, source audits, ...)
+    extra_cov = {}
+    if hasattr(mod, "extra_checks") and not replay:
+        ev, extra_cov = mod.extra_checks(exe, rng.fork("extra"), tier)
+        for kind, desc, payload in ev:          # kind: 'oracle' (a failing input) | 'tie' (model/impl or translator disagreement)
+            c = Case("-", "extra " + json.dumps(payload, default=str)[:2000], None, meta={"extra": payload}, family="extra")
+            c.cid = "x%d" % len(violations)
+            if kind == "oracle":
+                violations.append(("oracle", desc, c))
+            else:
+                tie_fail.append((c, desc, None))
     # ---- 7. verdicts
     kf = known_findings()
     exit_code = 0
@@ -211,6 +233,7 @@ def run_check(pid, tier, seed, replay=None):
     }
     if hasattr(mod, "extra_coverage"):
         cov.update(mod.extra_coverage())
+    cov.update(extra_cov)
     write_evidence(pid, tier, seed, cov, mod.ASSUMPTIONS, time.time() - t0, reported)
     say("%s %s: theorems %d/%d, cases %d (tie: %d compared, %d bit-identical, %d close, %d differ), oracle %d, violations %d, %.1fs" % (
         pid, tier, pr["discharged"], pr["obligations"], len(live), tie["compared"], tie["same"], tie["close"], tie["differ"], oracle_checked, reported, time.time() - t0))
